@@ -635,8 +635,45 @@ func eq(a, b string) string {
 	if a == b {
 		return "true"
 	}
-	if isLiteral(a) && isLiteral(b) && a[:2] == b[:2] {
-		return "false"
+	if isLiteral(a) && isLiteral(b) {
+		if a[:2] == b[:2] {
+			return "false"
+		}
+		// the two spellings of a bit-vector literal: #x........ and (_ bvN W)
+		if va, wa, oka := litValue(a); oka {
+			if vb, wb, okb := litValue(b); okb && wa == wb {
+				if va == vb {
+					return "true"
+				}
+				return "false"
+			}
+		}
 	}
 	return "(= " + a + " " + b + ")"
+}
+
+// litValue parses a bit-vector literal in either spelling.
+func litValue(t string) (uint64, int, bool) {
+	if strings.HasPrefix(t, "#x") {
+		var v uint64
+		if _, err := fmt.Sscanf(t[2:], "%x", &v); err == nil {
+			return v, 4 * (len(t) - 2), true
+		}
+		return 0, 0, false
+	}
+	var v uint64
+	var w int
+	if n, err := fmt.Sscanf(t, "(_ bv%d %d)", &v, &w); n == 2 && err == nil {
+		return v, w, true
+	}
+	return 0, 0, false
+}
+
+// isNil reports whether a reference term is the nil literal in either spelling.
+func isNil(t string) bool {
+	if t == NilRef {
+		return true
+	}
+	v, w, ok := litValue(t)
+	return ok && w == 32 && v == 0
 }
